@@ -477,8 +477,14 @@ func ruleE1Cow(c *Ctx) []Ob {
 		}
 	}
 	s.ok("Get:read-only", c.Pos(get.Pos()), "Get performs no store")
-	// sds.Set only in createStructDesc after err == nil
-	build := c.SSA[pkgReflect].Func("newStructDescAndPrefetch")
+	// sds.Set only after a descriptor build (or a transaction function around it) returned err == nil
+	builders := map[*ssa.Function]bool{}
+	if bf := c.buildFn(); bf != nil {
+		builders[bf] = true
+		for _, tf := range c.transactionFns() {
+			builders[tf] = true
+		}
+	}
 	for _, fn := range c.ModuleFuncs(pkgReflect) {
 		for _, b := range fn.Blocks {
 			for _, ins := range b.Instrs {
@@ -487,10 +493,6 @@ func ruleE1Cow(c *Ctx) []Ob {
 					continue
 				}
 				key := shortFn(fn) + ":sds.Set"
-				if fn.Name() != "createStructDesc" {
-					s.bad(key, c.InstrPos(call), "descriptor published to the lock-free map outside createStructDesc (before the whole nest of descriptors is known to be complete and valid): readers that do not take the mutex can see a half-built descriptor")
-					continue
-				}
 				// dominated by the err == nil edge of the build call
 				good := false
 				for _, cd := range domConds(b) {
@@ -503,14 +505,14 @@ func ruleE1Cow(c *Ctx) []Ob {
 						ev = bo.Y
 					}
 					if ex, ok := ev.(*ssa.Extract); ok {
-						if bc, ok := ex.Tuple.(*ssa.Call); ok && bc.Call.StaticCallee() == build {
+						if bc, ok := ex.Tuple.(*ssa.Call); ok && builders[bc.Call.StaticCallee()] {
 							if bo.Op == token.NEQ && !cd.Truth || bo.Op == token.EQL && cd.Truth {
 								good = true
 							}
 						}
 					}
 				}
-				s.check(good, key, c.InstrPos(call), "published after the build returned err == nil", "sds.Set is not dominated by the err == nil edge of the descriptor build")
+				s.check(good, key, c.InstrPos(call), "published after the build returned err == nil", "descriptor published to the lock-free map without being dominated by the err == nil edge of the descriptor build (before the whole nest of descriptors is known to be complete and valid): readers that do not take the mutex can see a half-built or invalid descriptor")
 			}
 		}
 	}
@@ -568,49 +570,189 @@ func loadedFromSlot(v ssa.Value) bool {
 	return false
 }
 
-func ruleE3(c *Ctx) []Ob {
-	s := newSink(c, "E3.transactional-build")
-	sp := c.SSA[pkgReflect]
-	create := sp.Func("createStructDesc")
-	build := sp.Func("newStructDescAndPrefetch")
-	commit := sp.Func("commitPrefetch")
-	rollback := sp.Func("rollbackPrefetch")
-	if create == nil || build == nil || commit == nil || rollback == nil {
-		s.bad("roles", "-", "createStructDesc / newStructDescAndPrefetch / commitPrefetch / rollbackPrefetch not found: a failed build of mutually nested types cannot be rolled back")
-		return s.obs
-	}
-	// (1) in createStructDesc: every path from the build call to a return passes commit or rollback on the matching edge
-	var bcall *ssa.Call
-	for _, b := range create.Blocks {
-		for _, ins := range b.Instrs {
-			if call, ok := ins.(*ssa.Call); ok && call.Call.StaticCallee() == build {
-				bcall = call
-			}
-		}
-	}
-	if bcall == nil {
-		s.bad("createStructDesc:build-call", c.Pos(create.Pos()), "createStructDesc does not call newStructDescAndPrefetch")
-	} else {
-		fin := map[*ssa.BasicBlock]*ssa.Function{}
-		for _, b := range create.Blocks {
+// journals of the transactional descriptor build
+var journals = []string{"reflect.prefetchPendingKeys", "reflect.prefetchPendingTypes"}
+
+func isJournal(k string) bool { return k == journals[0] || k == journals[1] }
+
+// buildFn: the recursive descriptor build = the function that inserts into the prefetch cache.
+func (c *Ctx) buildFn() *ssa.Function {
+	for _, fn := range c.ModuleFuncs(pkgReflect) {
+		for _, b := range fn.Blocks {
 			for _, ins := range b.Instrs {
-				if call, ok := ins.(*ssa.Call); ok {
-					if f := call.Call.StaticCallee(); f == commit || f == rollback {
-						fin[b] = f
+				if mu, ok := ins.(*ssa.MapUpdate); ok {
+					if g := rootGlobal(mu.Map); g != nil && globalKey(g) == "reflect.prefetchStructDescCache" {
+						return fn
 					}
 				}
 			}
 		}
-		for _, b := range create.Blocks {
+	}
+	return nil
+}
+
+// staticReach: module functions reachable from fn through static calls (fn included).
+func staticReach(fn *ssa.Function) map[*ssa.Function]bool {
+	seen := map[*ssa.Function]bool{}
+	var walk func(f *ssa.Function)
+	walk = func(f *ssa.Function) {
+		if f == nil || seen[f] || f.Blocks == nil {
+			return
+		}
+		seen[f] = true
+		for _, b := range f.Blocks {
+			for _, ins := range b.Instrs {
+				if ci, ok := ins.(ssa.CallInstruction); ok {
+					walk(ci.Common().StaticCallee())
+				}
+			}
+		}
+	}
+	walk(fn)
+	return seen
+}
+
+// transactionFns: the functions that start a build from outside the build's own recursion.
+func (c *Ctx) transactionFns() []*ssa.Function {
+	build := c.buildFn()
+	if build == nil {
+		return nil
+	}
+	inner := staticReach(build)
+	var out []*ssa.Function
+	for _, fn := range c.ModuleFuncs(pkgReflect) {
+		if inner[fn] {
+			continue
+		}
+		if fnHasCall(fn, func(ci ssa.CallInstruction) bool { return ci.Common().StaticCallee() == build }) {
+			out = append(out, fn)
+		}
+	}
+	return out
+}
+
+// journalEffects summarises what fn (with its static callees, to a small depth) does to the journals:
+// which journals it empties, and whether it undoes the journalled cache inserts / Sd links.
+type jEffect struct {
+	trunc          map[string]bool
+	delKeys, nilSd bool
+}
+
+func (e jEffect) truncBoth() bool { return e.trunc[journals[0]] && e.trunc[journals[1]] }
+
+func journalEffects(fn *ssa.Function, depth int) jEffect {
+	e := jEffect{trunc: map[string]bool{}}
+	if fn == nil || fn.Blocks == nil || depth > 3 {
+		return e
+	}
+	for _, b := range fn.Blocks {
+		for _, ins := range b.Instrs {
+			switch x := ins.(type) {
+			case *ssa.Store:
+				if g, ok := x.Addr.(*ssa.Global); ok && isJournal(globalKey(g)) && isTruncation(x.Val) {
+					e.trunc[globalKey(g)] = true
+				}
+				if _, typ, f, ok := fieldOf(x.Addr); ok && typ == "tType" && f == "Sd" && isNilConst(x.Val) && strings.HasPrefix(path(x.Addr), "reflect.prefetchPendingTypes[") {
+					e.nilSd = true
+				}
+			case *ssa.Call:
+				if isBuiltin(x, "delete") && path(x.Call.Args[0]) == "reflect.prefetchStructDescCache" && strings.HasPrefix(path(x.Call.Args[1]), "reflect.prefetchPendingKeys[") {
+					e.delKeys = true
+				}
+				if f := x.Call.StaticCallee(); f != nil && fnPkgPath(f) == pkgReflect {
+					sub := journalEffects(f, depth+1)
+					for k := range sub.trunc {
+						e.trunc[k] = true
+					}
+					e.delKeys = e.delKeys || sub.delKeys
+					e.nilSd = e.nilSd || sub.nilSd
+				}
+			}
+		}
+	}
+	return e
+}
+
+// isTruncation: v is x[:0] or nil.
+func isTruncation(v ssa.Value) bool {
+	if sl, ok := v.(*ssa.Slice); ok && sl.High != nil {
+		if n, ok := constInt(sl.High); ok && n == 0 {
+			return true
+		}
+	}
+	return isNilConst(v)
+}
+
+func ruleE3(c *Ctx) []Ob {
+	s := newSink(c, "E3.transactional-build")
+	sp := c.SSA[pkgReflect]
+	build := c.buildFn()
+	txs := c.transactionFns()
+	if build == nil || len(txs) == 0 {
+		s.bad("roles", "-", "no function inserts into the prefetch cache, or the build is started nowhere: a failed build of mutually nested types cannot be rolled back")
+		return s.obs
+	}
+	// (1) in every function that starts a build: every path from the build call to a return passes a call that empties the
+	// journals; on the failure edge that call also undoes the journalled inserts and links, on the success edge it does not
+	var finishers []*ssa.Function
+	for _, tx := range txs {
+		var bcall *ssa.Call
+		for _, b := range tx.Blocks {
+			for _, ins := range b.Instrs {
+				if call, ok := ins.(*ssa.Call); ok && call.Call.StaticCallee() == build {
+					bcall = call
+				}
+			}
+		}
+		fin := map[*ssa.BasicBlock]jEffect{}
+		finFn := map[*ssa.BasicBlock]*ssa.Function{}
+		for _, b := range tx.Blocks {
+			for _, ins := range b.Instrs {
+				if call, ok := ins.(*ssa.Call); ok {
+					if f := call.Call.StaticCallee(); f != nil && f != build && fnPkgPath(f) == pkgReflect {
+						if e := journalEffects(f, 0); e.truncBoth() {
+							fin[b] = e
+							finFn[b] = f
+							finishers = append(finishers, f)
+						}
+					}
+				}
+			}
+		}
+		var errEdge, okEdge *ssa.BasicBlock // successors of the test of the build's error
+		for _, r := range referrers(bcall) {
+			ex, ok := r.(*ssa.Extract)
+			if !ok || !isErrorType(ex.Type()) {
+				continue
+			}
+			for _, rr := range referrers(ex) {
+				bo, ok := rr.(*ssa.BinOp)
+				if !ok || !(isNilConst(bo.X) || isNilConst(bo.Y)) {
+					continue
+				}
+				for _, r3 := range referrers(bo) {
+					if iff, ok := r3.(*ssa.If); ok {
+						t, f := iff.Block().Succs[0], iff.Block().Succs[1]
+						if bo.Op == token.NEQ {
+							errEdge, okEdge = t, f
+						} else if bo.Op == token.EQL {
+							errEdge, okEdge = f, t
+						}
+					}
+				}
+			}
+		}
+		for _, b := range tx.Blocks {
 			ret, ok := b.Instrs[len(b.Instrs)-1].(*ssa.Return)
-			if !ok || b == create.Recover || !(bcall.Block() == b || blockReaches(bcall.Block(), b)) {
+			if !ok || b == tx.Recover || !(bcall.Block() == b || blockReaches(bcall.Block(), b)) {
 				continue
 			}
 			// search backwards from the return to the build call avoiding finishing blocks
 			leak := false
 			seen := map[*ssa.BasicBlock]bool{}
 			st := []*ssa.BasicBlock{b}
-			var via *ssa.Function
+			var via *jEffect
+			viaName := ""
 			for len(st) > 0 {
 				x := st[len(st)-1]
 				st = st[:len(st)-1]
@@ -618,8 +760,10 @@ func ruleE3(c *Ctx) []Ob {
 					continue
 				}
 				seen[x] = true
-				if f, ok := fin[x]; ok {
-					via = f
+				if e, ok := fin[x]; ok {
+					e := e
+					via = &e
+					viaName = finFn[x].Name()
 					continue
 				}
 				if x == bcall.Block() {
@@ -630,22 +774,77 @@ func ruleE3(c *Ctx) []Ob {
 			}
 			ev := unspill(ret.Results[len(ret.Results)-1], b)
 			isErr := definitelyNonNilErr(ev, b)
-			key := "createStructDesc:finish"
+			onErr := errEdge != nil && (errEdge == b || errEdge.Dominates(b)) && len(errEdge.Preds) == 1
+			onOK := okEdge != nil && (okEdge == b || okEdge.Dominates(b)) && len(okEdge.Preds) == 1
+			key := shortFn(tx) + ":finish"
 			switch {
 			case leak:
-				s.bad(key, c.InstrPos(ret), "a return after the build is reachable without commitPrefetch/rollbackPrefetch: the journal of this build stays open and a later failed build rolls back (or a later success commits) the wrong entries")
-			case isErr && via != rollback:
-				s.bad(key, c.InstrPos(ret), "error return after the build does not roll back")
-			case !isErr && via != commit:
-				s.bad(key, c.InstrPos(ret), "success return after the build does not commit")
+				s.bad(key, c.InstrPos(ret), "a return after the build is reachable without emptying the journals: the journal of this build stays open and a later failed build rolls back (or a later success commits) the wrong entries")
+			case onErr && !isErr:
+				s.bad(key, c.InstrPos(ret), "a failed build does not return its error")
+			case (isErr || onErr) && !(via.delKeys && via.nilSd):
+				s.bad(key, c.InstrPos(ret), "error return after the build does not roll back (the finishing call "+viaName+" does not undo the journalled inserts and links)")
+			case (!isErr || onOK) && !onErr && (via.delKeys || via.nilSd):
+				s.bad(key, c.InstrPos(ret), "success return after the build does not commit (it undoes the build through "+viaName+")")
 			default:
-				s.ok(key, c.InstrPos(ret), "finishes the journal with "+via.Name())
+				s.ok(key, c.InstrPos(ret), "finishes the journal with "+viaName)
+			}
+		}
+	}
+	// functions that may empty the journals: the finishing calls and everything only they call
+	mayTrunc := map[*ssa.Function]bool{}
+	for _, f := range finishers {
+		for g := range staticReach(f) {
+			mayTrunc[g] = true
+		}
+	}
+	for changed := true; changed; {
+		changed = false
+		for g := range mayTrunc {
+			if isFinisher(g, finishers) {
+				continue
+			}
+			// every static caller is itself allowed
+			for _, fn := range c.ModuleFuncs(pkgReflect) {
+				if mayTrunc[fn] {
+					continue
+				}
+				if fnHasCall(fn, func(ci ssa.CallInstruction) bool { return ci.Common().StaticCallee() == g }) {
+					delete(mayTrunc, g)
+					changed = true
+					break
+				}
+			}
+		}
+	}
+	// calls that empty a journal are made only at the end of a build (in a function that starts one) or inside the finishing calls
+	isTx := map[*ssa.Function]bool{}
+	for _, tx := range txs {
+		isTx[tx] = true
+	}
+	finClosure := map[*ssa.Function]bool{}
+	for _, f := range finishers {
+		for g := range staticReach(f) {
+			finClosure[g] = true
+		}
+	}
+	for _, fn := range c.ModuleFuncs(pkgReflect) {
+		if isTx[fn] || mayTrunc[fn] {
+			continue
+		}
+		for _, b := range fn.Blocks {
+			for _, ins := range b.Instrs {
+				if call, ok := ins.(*ssa.Call); ok {
+					if f := call.Call.StaticCallee(); f != nil && finClosure[f] && len(journalEffects(f, 0).trunc) > 0 {
+						s.bad(shortFn(fn)+":journal-store", c.InstrPos(call), "the build journal is emptied by "+f.Name()+" outside the commit/rollback of a build: entries of the running build are forgotten and a rollback leaves their descriptors in the caches")
+					}
+				}
 			}
 		}
 	}
 	// (2) journalling at the write sites
 	for _, fn := range c.ModuleFuncs(pkgReflect) {
-		if fn == rollback || fn == commit || isInitFn(fn) {
+		if isInitFn(fn) {
 			continue
 		}
 		for _, b := range fn.Blocks {
@@ -653,7 +852,7 @@ func ruleE3(c *Ctx) []Ob {
 				switch x := ins.(type) {
 				case *ssa.Store:
 					recv, typ, f, ok := fieldOf(x.Addr)
-					if !ok || typ != "tType" || f != "Sd" || localAlloc(recv) {
+					if !ok || typ != "tType" || f != "Sd" || localAlloc(recv) || isNilConst(x.Val) {
 						continue
 					}
 					good := appendsTo(b, i, "reflect.prefetchPendingTypes", recv)
@@ -667,8 +866,8 @@ func ruleE3(c *Ctx) []Ob {
 			}
 		}
 	}
-	// (2b) the journals are only ever appended to (at the write sites) or emptied (commit): truncating them anywhere else
-	// makes a later rollback forget entries of the same build
+	// (2b) the journals are only ever appended to (at the write sites) or emptied (by the finishing calls): truncating them
+	// anywhere else makes a later rollback forget entries of the same build
 	for _, fn := range c.ModuleFuncs(pkgReflect) {
 		for _, b := range fn.Blocks {
 			for _, ins := range b.Instrs {
@@ -677,20 +876,20 @@ func ruleE3(c *Ctx) []Ob {
 					continue
 				}
 				g, ok := st.Addr.(*ssa.Global)
-				if !ok || globalKey(g) != "reflect.prefetchPendingKeys" && globalKey(g) != "reflect.prefetchPendingTypes" {
+				if !ok || !isJournal(globalKey(g)) {
 					continue
 				}
 				good := false
 				if call, ok := st.Val.(*ssa.Call); ok && isBuiltin(call, "append") && path(call.Call.Args[0]) == globalKey(g) {
 					good = true
 				}
-				if fn == commit {
+				if mayTrunc[fn] && isTruncation(st.Val) {
 					good = true
 				}
 				if isInitFn(fn) {
 					good = true
 				}
-				s.check(good, shortFn(fn)+":journal-store", c.InstrPos(st), "journal is appended to / emptied by commit", "the build journal "+globalKey(g)+" is overwritten or truncated outside commitPrefetch: entries of the running build are forgotten and a rollback leaves their descriptors in the caches")
+				s.check(good, shortFn(fn)+":journal-store", c.InstrPos(st), "journal is appended to / emptied by the finishing call", "the build journal "+globalKey(g)+" is overwritten or truncated outside the commit/rollback of a build: entries of the running build are forgotten and a rollback leaves their descriptors in the caches")
 			}
 		}
 	}
@@ -744,59 +943,97 @@ func ruleE3(c *Ctx) []Ob {
 		}
 		s.check(have["STRUCT"] && have["MAP"] && have["LIST"] && have["SET"], "prefetchSubStructDesc:kinds", c.Pos(ps.Pos()), "struct, map, list and set fields are prefetched", fmt.Sprintf("prefetch visits only kinds %v", keysOf(have)))
 	}
-	// (3) rollback / commit bodies
-	delKeys, nilSd := false, false
-	for _, b := range rollback.Blocks {
-		for _, ins := range b.Instrs {
-			switch x := ins.(type) {
-			case *ssa.Call:
-				if isBuiltin(x, "delete") && path(x.Call.Args[0]) == "reflect.prefetchStructDescCache" && strings.HasPrefix(path(x.Call.Args[1]), "reflect.prefetchPendingKeys[") {
-					delKeys = true
-				}
-			case *ssa.Store:
-				if _, typ, f, ok := fieldOf(x.Addr); ok && typ == "tType" && f == "Sd" && isNilConst(x.Val) && strings.HasPrefix(path(x.Addr), "reflect.prefetchPendingTypes[") {
-					nilSd = true
-				}
-			}
+	// (3) the undoing finisher reads the journals before it empties them
+	for _, rb := range dedupFns(finishers) {
+		e := journalEffects(rb, 0)
+		if !(e.delKeys || e.nilSd) {
+			continue
 		}
-	}
-	s.check(delKeys && nilSd, "rollbackPrefetch:body", c.Pos(rollback.Pos()), "deletes every journalled key and clears every journalled Sd", "rollback does not undo both the cache inserts and the Sd links")
-	trunc := map[string]bool{}
-	for _, fn := range []*ssa.Function{commit} {
-		for _, b := range fn.Blocks {
-			for _, ins := range b.Instrs {
-				if st, ok := ins.(*ssa.Store); ok {
-					if g, ok := st.Addr.(*ssa.Global); ok {
-						if sl, ok := st.Val.(*ssa.Slice); ok && sl.High != nil {
-							if v, ok := constInt(sl.High); ok && v == 0 {
-								trunc[globalKey(g)] = true
-							}
+		s.check(e.delKeys && e.nilSd, shortFn(rb)+":body", c.Pos(rb.Pos()), "deletes every journalled key and clears every journalled Sd", "rollback does not undo both the cache inserts and the Sd links")
+		// ordering inside the function that contains the undo loops
+		for g := range staticReach(rb) {
+			var truncs, reads []ssa.Instruction
+			for _, b := range g.Blocks {
+				for _, ins := range b.Instrs {
+					switch x := ins.(type) {
+					case *ssa.Store:
+						if gl, ok := x.Addr.(*ssa.Global); ok && isJournal(globalKey(gl)) && isTruncation(x.Val) {
+							truncs = append(truncs, ins)
 						}
-						if isNilConst(st.Val) {
-							trunc[globalKey(g)] = true
+					case *ssa.Call:
+						if f := x.Call.StaticCallee(); f != nil && fnPkgPath(f) == pkgReflect && len(journalEffects(f, 1).trunc) > 0 {
+							truncs = append(truncs, ins)
+						}
+					case *ssa.UnOp:
+						if gl, ok := x.X.(*ssa.Global); ok && x.Op == token.MUL && isJournal(globalKey(gl)) {
+							// a read that feeds the truncation itself (x = x[:0]) is not an undo read
+							feeds := false
+							for _, r := range referrers(x) {
+								if sl, ok := r.(*ssa.Slice); ok && isTruncation(sl) {
+									feeds = true
+								}
+							}
+							if !feeds {
+								reads = append(reads, ins)
+							}
 						}
 					}
 				}
 			}
-		}
-	}
-	s.check(trunc["reflect.prefetchPendingKeys"] && trunc["reflect.prefetchPendingTypes"], "commitPrefetch:body", c.Pos(commit.Pos()), "empties both journals", "commit does not empty both journals")
-	// rollback ends by emptying the journals (calls commit or truncates)
-	ends := false
-	for _, b := range rollback.Blocks {
-		for _, ins := range b.Instrs {
-			if call, ok := ins.(*ssa.Call); ok && call.Call.StaticCallee() == commit {
-				ends = true
+			for _, t := range truncs {
+				for _, r := range reads {
+					before := t.Block() == r.Block() && instrIndex(t) < instrIndex(r) || t.Block() != r.Block() && blockReaches(t.Block(), r.Block())
+					if before {
+						s.bad(shortFn(g)+":empties-last", c.InstrPos(t), "the journal is emptied before it is read back: the rollback undoes nothing")
+					}
+				}
 			}
 		}
+		s.ok(shortFn(rb)+":empties", c.Pos(rb.Pos()), "journals are emptied after the undo")
 	}
-	s.check(ends, "rollbackPrefetch:empties", c.Pos(rollback.Pos()), "journals are emptied after rollback", "rollback leaves the journals non-empty")
 	return s.obs
 }
 
-// appendsTo: after instruction index i in block b there is `journal = append(journal, v)`.
+func isFinisher(f *ssa.Function, fs []*ssa.Function) bool {
+	for _, g := range fs {
+		if f == g {
+			return true
+		}
+	}
+	return false
+}
+
+func dedupFns(fs []*ssa.Function) []*ssa.Function {
+	seen := map[*ssa.Function]bool{}
+	var out []*ssa.Function
+	for _, f := range fs {
+		if !seen[f] {
+			seen[f] = true
+			out = append(out, f)
+		}
+	}
+	sort.Slice(out, func(i, j int) bool { return out[i].Pos() < out[j].Pos() })
+	return out
+}
+
+// appendsTo: after instruction index i in block b there is `journal = append(journal, v)`, directly or through a helper
+// whose body appends its parameter.
 func appendsTo(b *ssa.BasicBlock, i int, journal string, v ssa.Value) bool {
 	for _, ins := range b.Instrs[i+1:] {
+		if call, ok := ins.(*ssa.Call); ok {
+			if f := call.Call.StaticCallee(); f != nil && f.Blocks != nil && fnPkgPath(f) == pkgReflect {
+				for k, prm := range f.Params {
+					if k < len(call.Call.Args) && (call.Call.Args[k] == v || path(call.Call.Args[k]) == path(v)) {
+						for _, fb := range f.Blocks {
+							if appendsTo(fb, -1, journal, prm) && fb.Dominates(exitBlockOf(f)) {
+								return true
+							}
+						}
+					}
+				}
+			}
+			continue
+		}
 		st, ok := ins.(*ssa.Store)
 		if !ok {
 			continue
@@ -825,4 +1062,19 @@ func appendsTo(b *ssa.BasicBlock, i int, journal string, v ssa.Value) bool {
 		}
 	}
 	return false
+}
+
+// exitBlockOf: the single returning block of f, or its entry block when there are several (so that only an
+// unconditional append is accepted).
+func exitBlockOf(f *ssa.Function) *ssa.BasicBlock {
+	var rets []*ssa.BasicBlock
+	for _, b := range f.Blocks {
+		if _, ok := b.Instrs[len(b.Instrs)-1].(*ssa.Return); ok {
+			rets = append(rets, b)
+		}
+	}
+	if len(rets) == 1 {
+		return rets[0]
+	}
+	return f.Blocks[0]
 }
